@@ -120,6 +120,12 @@ def time_input(name, seconds, carrier='dt64'):
         return [int(s) if s.denominator == 1 else s for s in secs]
     if carrier == 'epoch_array':
         return Vec.fresh(cells, kind='nd', dtype='f8', owner=name)
+    if carrier in ('epoch_series_u', 'epoch_index_u', 'epoch_array_u'):
+        # whole epoch seconds in an unsigned integer container (uint8 here: the instants of the scenarios are small numbers)
+        if any(x.denominator != 1 or not 0 <= x < 256 for x in secs):
+            raise ValueError('unsigned 8-bit carrier needs whole seconds below 256')
+        kind = {'epoch_series_u': 'series', 'epoch_index_u': 'index', 'epoch_array_u': 'nd'}[carrier]
+        return Vec.fresh(cells, kind=kind, dtype='u1', owner=name)
     if carrier in ('epoch_series', 'epoch_index'):
         # numbers of seconds since the epoch held in a pandas Series / Index
         return Vec.fresh(cells, kind='series' if carrier == 'epoch_series' else 'index', dtype='f8', owner=name)
